@@ -38,7 +38,15 @@ const OPS: [Op; 11] = [
 
 struct Scn {
     layout: usize,
+    /// instance-name shape of S1: 0 "one", 1 non-ASCII capital letters, 2 a dot inside the label
+    shape: usize,
 }
+const SHAPES: [(&str, &str, &str); 3] = [
+    // (tag, instance label, the same label with only its ASCII letters in the other case)
+    ("plain", "one", "ONE"),
+    ("non-ascii-capitals", "Ünal Büro", "ÜNAL BüRO"),
+    ("dotted-label", "My.Printer", "mY.pRINTER"),
+];
 
 struct Run {
     w: World,
@@ -266,7 +274,11 @@ impl Scn {
 impl Scenario for Scn {
     type Run = Run;
     fn name(&self) -> String {
-        format!("unregister-sequences-{}", layouts()[self.layout].0)
+        if self.shape == 0 {
+            format!("unregister-sequences-{}", layouts()[self.layout].0)
+        } else {
+            format!("unregister-sequences-{}-{}", layouts()[self.layout].0, SHAPES[self.shape].0)
+        }
     }
     fn rule(&self) -> String {
         "all sequences over {register S1, re-register S1 with a new port, register S2 (other type), conflicting response for S1's name, unregister S1 exact / other letter case / unknown name, unregister S2, idle 300 ms, idle 2 s, shutdown}; states de-duplicated on daemon dump + reference state".into()
@@ -300,11 +312,11 @@ impl Scenario for Scn {
         let w = &mut run.w;
         match op {
             Op::Reg1 => {
-                w.ds[0].h.register(svc("_t._tcp.local.", "one", "host.local.", &run.ipstr, 80, &[("k", "v")])).unwrap();
+                w.ds[0].h.register(svc("_t._tcp.local.", SHAPES[self.shape].1, "host.local.", &run.ipstr, 80, &[("k", "v")])).unwrap();
                 w.poke(0);
             }
             Op::Reg1NewPort => {
-                w.ds[0].h.register(svc("_t._tcp.local.", "one", "host.local.", &run.ipstr, 8080, &[("k", "v")])).unwrap();
+                w.ds[0].h.register(svc("_t._tcp.local.", SHAPES[self.shape].1, "host.local.", &run.ipstr, 8080, &[("k", "v")])).unwrap();
                 w.poke(0);
             }
             Op::Reg2 => {
@@ -313,18 +325,20 @@ impl Scenario for Scn {
             }
             Op::Conflict1 => {
                 // another host claims S1's instance name with different SRV data
-                let inst = n("one._t._tcp.local");
+                let mut inst: Name = vec![SHAPES[self.shape].1.as_bytes().to_vec()];
+                inst.extend(n("_t._tcp.local"));
                 let m = response(vec![srv(&inst, &n("elsewhere.local"), 9, 120)]);
                 w.deliver(0, IF0, PEER0, build(&m));
             }
             Op::Unreg1 | Op::Unreg1OtherCase | Op::UnregUnknown | Op::Unreg2 => {
                 let name = match op {
-                    Op::Unreg1 => "one._t._tcp.local.",
-                    Op::Unreg1OtherCase => "ONE._T._tcp.LOCAL.",
-                    Op::UnregUnknown => "nobody._t._tcp.local.",
-                    _ => "two._u._udp.local.",
+                    // the full name as ServiceInfo::get_fullname spells it: dots inside the instance label escaped
+                    Op::Unreg1 => format!("{}._t._tcp.local.", SHAPES[self.shape].1.replace('.', "\\.")),
+                    Op::Unreg1OtherCase => format!("{}._T._tcp.LOCAL.", SHAPES[self.shape].2.replace('.', "\\.")),
+                    Op::UnregUnknown => "nobody._t._tcp.local.".to_string(),
+                    _ => "two._u._udp.local.".to_string(),
                 };
-                let rx = w.ds[0].h.unregister(name).unwrap();
+                let rx = w.ds[0].h.unregister(&name).unwrap();
                 w.poke(0);
                 reply = Some(rx.try_recv().map(|s| matches!(s, UnregisterStatus::OK)).map_err(|e| format!("{e:?}")));
             }
@@ -409,8 +423,16 @@ pub fn check(tier: &str) -> i32 {
     rep.assume("SRV/TXT RDATA of a goodbye is compared by names only (a re-registration may have changed port/TXT since the last announcement)");
     let depth = if thorough { 5 } else { 4 };
     for layout in 0..3 {
-        let scn = Scn { layout };
+        let scn = Scn { layout, shape: 0 };
         rep.run_bfs(&scn, depth, Duration::from_secs(if thorough { 2400 } else { 25 }));
+        let nm = scn.name();
+        rep.require(&nm, "unregister_replies_checked");
+        rep.require(&nm, "goodbyes_expected");
+    }
+    // other instance-name shapes (one layout, one level less deep)
+    for shape in 1..SHAPES.len() {
+        let scn = Scn { layout: 0, shape };
+        rep.run_bfs(&scn, depth - 1, Duration::from_secs(if thorough { 1200 } else { 25 }));
         let nm = scn.name();
         rep.require(&nm, "unregister_replies_checked");
         rep.require(&nm, "goodbyes_expected");
